@@ -1,10 +1,11 @@
-"""PROTOTYPE C13: line-level include/exclude honoured for single-line sites; change.lineNumber == edited line."""
+"""C13: line-level include/exclude honoured for single-line sites; change.lineNumber == edited line."""
 import base64, collections, difflib, hashlib, itertools, json, os, random, sys
-from vf import corpus, gen
+from vf import corpus, gen, sites as S
 from vf.pool import Pool
-from vf.runner import run_check, Violation
+from vf.runner import run_check, Violation, strip_job
 b64 = lambda b: base64.b64encode(b).decode(); unb = base64.b64decode
 K = 3
+SKIPPED = collections.Counter()
 
 def replicate(src, k=K):
     head, body = gen.split_head(src)
@@ -12,9 +13,9 @@ def replicate(src, k=K):
     if not body.endswith("\n"): body += "\n"
     out = head; ranges = []; line = head.count("\n")
     for i in range(k):
-        out += f"# VF-SITE-{i}-BEGIN\n"; line += 1
+        out += S.BEGIN(i); line += 1
         n = body.count("\n"); ranges.append((line + 1, line + n)); out += body; line += n
-        out += f"# VF-SITE-{i}-END\n"; line += 1
+        out += S.END(i); line += 1
     return out, ranges
 
 def changed_lines(a, b):
@@ -51,20 +52,23 @@ def plan(tier, seed):
         if not t or not t.startswith("F:"): continue
         after = unb(t[2:]).decode("utf-8", "replace")
         if after == j["src"]: continue
-        ch = changed_lines(j["src"], after)
-        sites = []
-        for (s, e) in j["ranges"]:
-            inside = sorted(c for c in ch if s <= c <= e)
-            sites.append(inside[0] if len(inside) == 1 else None)
-        outside = [c for c in ch if not any(s <= c <= e for s, e in j["ranges"])]
-        if any(x is None for x in sites) or after.count("\n") != j["src"].count("\n") - 0 and False: continue
-        if len(after.splitlines()) != len(j["src"].splitlines()) and not outside: continue  # multi-line edit
+        sites, n_outside = S.single_line_replacements(j["src"], after, j["ranges"])
+        if any(x is None for x in sites): SKIPPED["edit-not-confined-to-one-line"] += 1; continue   # insertions, removals, 1->n replacements: outside the quantifier
+        hdr = [S.header_range(j["src"], ln) for ln in sites]
+        if any(h is None or h[0] != h[1] for h in hdr): SKIPPED["multi-line-construct"] += 1; continue   # labelled, unjudged class (the quantifier speaks of single-line sites)
+        outside = [1] * n_outside
         # single-line in-place sites only (imports added elsewhere are fine)
         report_lines = sorted({c["lineNumber"] for rr in run["report"]["results"] for cs in rr["changeset"] for c in cs["changes"]})
         base = {"cid": j["cid"], "src": j["src"], "sites": sites, "ranges": j["ranges"], "disc_report_lines": report_lines, "n_out_before": len(outside)}
         subsets = [s for n in range(1, K + 1) for s in itertools.combinations(range(K), n)]
         spellings = ["pkg/code.py:{n}", "*.py:{n}", "**/code.py:{n}", "{abs}:{n}", "code.py:{n}"]
         picks = rnd.sample(subsets, 2 if tier == "quick" else len(subsets))
+        # diagnostic cases (judged like any other): the whole filter on/off in the plain glob spelling; a codemod that fails one of them
+        # does not apply the line filter at all, and every violation of that codemod is keyed line-filter-not-applied/<codemod>
+        for dname, mode, sub in (("exclude-all", "exclude", tuple(range(K))), ("include-all", "include", tuple(range(K))), ("include-first", "include", (0,))):
+            pats = ["*.py:" + str(sites[i]) for i in sub]
+            jobs.append(dict(base, id=f"{j['cid']}|diag:{dname}|{j['id']}", files={"pkg/code.py": b64(j["src"].encode())}, argv=["{proj}", "--output", "{out}", "--codemod-include", j["cid"], "--path-" + mode, ",".join(pats)],
+                             mode=mode, sub=sub, spell="*.py:{n}", diag=dname, monitors={"snap": False}))
         for sub in picks:
             for mode in ("exclude", "include"):
                 allowed = spellings[:4] if mode == "exclude" else spellings[:3]  # absolute spelling only for excludes
@@ -76,8 +80,10 @@ def plan(tier, seed):
     return jobs
 
 def site_text(text, i):
-    a = text.find(f"# VF-SITE-{i}-BEGIN\n"); b = text.find(f"# VF-SITE-{i}-END\n")
+    a = text.find(S.BEGIN(i)); b = text.find(S.END(i))
     return text[a:b] if a >= 0 and b >= 0 else None
+
+_raw = []   # provisional violations, keyed in finalize() once the diagnostic cases of every codemod are known
 
 def judge(job, res):
     v = []; st = collections.Counter(); nt = []
@@ -85,24 +91,39 @@ def judge(job, res):
     if run["rc"] != 0 or run["exc"]:
         st["run_failed"] += 1; return v, st, nt
     t = run["tree"].get("pkg/code.py"); after = unb(t[2:]).decode("utf-8", "replace")
-    rewritten = {i for i in range(K) if site_text(after, i) != site_text(job["src"], i)}
+    rewritten = S.sites_changed(job["src"], after, K)
     permitted = set(range(K)) - set(job["sub"]) if job["mode"] == "exclude" else set(job["sub"])
     nt.append(job["id"]); st["fired:" + job["cid"]] += 1
+    handed = [e for e in run["trace"] if e["k"] == "pipe"]
+    if handed: st["line_filter_reached_transformer" if (handed[0]["line_include"] or handed[0]["line_exclude"]) else "line_filter_empty_at_transformer"] += 1
     cm = job["cid"].split("/")[1]; spell_cls = {"pkg/code.py:{n}": "relative", "*.py:{n}": "glob", "**/code.py:{n}": "glob", "{abs}:{n}": "absolute"}[job["spell"]]
-    w = {"codemod": job["cid"], "mode": job["mode"], "lines": [job["sites"][i] for i in job["sub"]], "spelling": job["spell"], "rewritten_sites": sorted(rewritten), "permitted": sorted(permitted), "src": job["src"]}
-    if rewritten - permitted:
-        key = "relative-line-pattern" if spell_cls == "relative" else f"no-line-filter/{cm}"
-        v.append(Violation("C13", key, f"sites {sorted(rewritten - permitted)} rewritten although not permitted ({job['mode']} {spell_cls})", w))
-    if permitted - rewritten:
-        v.append(Violation("C13", f"permitted-not-fixed/{cm}/{spell_cls}", f"sites {sorted(permitted - rewritten)} permitted but untouched", w))
+    w = {"codemod": job["cid"], "mode": job["mode"], "lines": [job["sites"][i] for i in job["sub"]], "spelling": job["spell"], "rewritten_sites": sorted(rewritten), "permitted": sorted(permitted), "src": job["src"], "after": after,
+         "line_include_at_transformer": handed[0]["line_include"] if handed else None, "line_exclude_at_transformer": handed[0]["line_exclude"] if handed else None}
+    rec = lambda kind, what: _raw.append({"kind": kind, "cm": cm, "spell": spell_cls, "mode": job["mode"], "diag": job.get("diag"), "what": what, "w": w, "job": strip_job(job),
+                                          "filter_lost": bool(handed) and not (handed[0]["line_include"] or handed[0]["line_exclude"])})
+    if rewritten - permitted: rec("not-permitted-rewritten", f"{cm}: sites {sorted(rewritten - permitted)} rewritten although their lines are not permitted (--path-{job['mode']} {job['spell']})")
+    if permitted - rewritten: rec("permitted-not-fixed", f"{cm}: sites {sorted(permitted - rewritten)} permitted but untouched (--path-{job['mode']} {job['spell']})")
     lines = sorted({c["lineNumber"] for rr in run["report"]["results"] for cs in rr["changeset"] for c in cs["changes"]})
     exp_lines = sorted(job["sites"][i] for i in rewritten)
     if rewritten and not (rewritten - permitted) and not set(exp_lines) <= set(lines):
-        v.append(Violation("C13", f"change-line-mismatch/{cm}", f"change entries name lines {lines}, edited lines {exp_lines}", w))
+        rec("change-line-mismatch", f"{cm}: change entries name lines {lines}, the edited lines are {exp_lines}")
     return v, st, nt
 
+def finalize(stats, counters):
+    diag_fail = {r["cm"] for r in _raw if r["diag"] and r["kind"] != "change-line-mismatch"}
+    out = []
+    for r in _raw:
+        if r["kind"] == "change-line-mismatch": key = f"change-line-mismatch/{r['cm']}"
+        elif r["cm"] in diag_fail: key = f"line-filter-not-applied/{r['cm']}"
+        elif r["filter_lost"]: key = f"line-pattern-not-matched/{r['spell']}-spelling"          # the pattern never reached the transformer
+        else: key = f"{r['kind']}/{r['cm']}/{r['spell']}-spelling"
+        out.append(Violation("C13", key, r["what"], r["w"], jobs=[r["job"]]))
+    extra = {"codemods_failing_a_diagnostic_case": sorted(diag_fail), "seeds_left_unjudged": dict(SKIPPED)}
+    return out, extra, None
+
 def main():
-    return run_check("C13", "exploration", plan, judge, "codemods with single-line sites replicated 3x between sentinels; subsets of site lines excluded/included in relative, glob and absolute spellings; non-trivial = every pattern run on a triggering program", 50, deciding_counters=("pipe_libcst",), timeout=300, module=__name__)
+    return run_check("C13", "exploration", plan, judge, "codemods whose triggering seed is edited on exactly one line: seed body replicated 3x between sentinels; diagnostic cases (exclude all / include all / include first) + subsets of site lines excluded/included in relative, glob and absolute spellings; H-pipe records the line filter handed to the transformer; non-trivial = every pattern run on a triggering program",
+                     50, deciding_counters=("pipe_libcst",), timeout=300, module=__name__, finalize=finalize)
 
 if __name__ == "__main__":
     sys.exit(main())
